@@ -28,6 +28,7 @@ impl From<&TcpHeader> for Vec<u8> {
         bytes.extend_from_slice(&hdr.flags.to_be_bytes());
         bytes.extend_from_slice(&hdr.window_size.to_be_bytes());
         bytes.extend_from_slice(&hdr.checksum.to_be_bytes());
+        bytes.extend_from_slice(&hdr.urgent.to_be_bytes());
         bytes
     }
 }
